@@ -31,10 +31,18 @@ import pyx12.errors
 TRIPLES = [('~', '*', ':'), ('+', '&', '!'), ('|', '^', '\\'), ('\x1d', '\x1c', '\x1e'), ('\n', '*', '>')]
 
 
-def isa_header(triple, icvn='00401'):
+def isa_header(triple, icvn='00401', variant=0):
+    """variant 1/2: ISA values that contain the component separator (the ISA itself is never split at it)"""
     st, et, ct = triple
     rep = 'U' if icvn == '00401' else '^'
-    el = ['ISA', '00', ' ' * 10, '00', ' ' * 10, 'ZZ', 'SENDER'.ljust(15), 'ZZ', 'RECEIVER'.ljust(15), '200101', '1200', rep, icvn, '000000001', '0', 'P', ct]
+    sender = 'SENDER'.ljust(15)
+    auth = ' ' * 10
+    if variant == 1:
+        sender = ('ACME' + ct + 'EAST' + ct + '0001' + ct).ljust(15)[:15]
+    elif variant == 2:
+        auth = ('A' + ct + ct + 'B').ljust(10)
+        sender = (ct + 'X').ljust(15)
+    el = ['ISA', '00', auth, '00', ' ' * 10, 'ZZ', sender, 'ZZ', 'RECEIVER'.ljust(15), '200101', '1200', rep, icvn, '000000001', '0', 'P', ct]
     h = et.join(el) + st
     assert len(h) == 106, len(h)
     return h
@@ -91,7 +99,7 @@ def read_all(src, bufsize=None):
 def record(tid, body, triple, sched=None, bufsize=None, kind='stream', with_text=True, label=''):
     """run the real reader over header+body; body is a str in concrete characters"""
     st, et, ct = triple
-    header = isa_header(triple)
+    header = isa_header(triple, variant=(tid % 6) if (tid % 6) in (1, 2) else 0)
     text = header + body
     tmp = None
     if kind == 'path':
@@ -113,6 +121,9 @@ def record(tid, body, triple, sched=None, bufsize=None, kind='stream', with_text
         return tr
     if not got or got[0][0].get_seg_id() != 'ISA' or [e.get_value() for c in got[0][0].elements for e in c.elements] != header[:-1].split(et)[1:]:
         tr['exc'] = 'ISA-not-first-or-altered'
+        return tr
+    if got[0][0].format() != header:
+        tr['exc'] = 'ISA-format-altered'
         return tr
     fmts = []
     for seg, errs in got[1:]:
